@@ -114,6 +114,8 @@ X = ('x',)
 NPFUNCS = {"log", "exp", "sqrt", "sinh", "arcsinh", "tanh", "abs", "sign", "expm1", "log1p", "power", "where",
            "sum", "mean", "std", "nansum", "nanmean", "prod", "corrcoef", "sort", "ones_like", "zeros_like",
            "atleast_1d", "atleast_2d", "isclose", "isnan", "maximum", "minimum", "cosh", "square", "reciprocal",
+           "nanmedian", "median", "argsort", "nanstd", "nanvar", "unique", "concatenate", "isfinite", "nanmax", "nanmin",
+           "max", "min", "diff", "percentile", "nanpercentile", "clip", "round", "floor", "ceil", "column_stack", "linspace",
            "absolute", "log10", "log2", "var", "cumsum", "arange", "float64", "asarray", "array", "any", "all"}
 MATHFUNCS = {"log", "exp", "sqrt", "sinh", "asinh", "tanh", "fabs", "pow", "cosh", "expm1", "log1p"}
 ALIASES = {"asinh": "arcsinh", "fabs": "abs", "absolute": "abs"}
@@ -169,6 +171,10 @@ class ExprBuilder:
                 if e.value != e.value:
                     return ('nan',)
                 return num(e.value)
+            if isinstance(e.value, str):
+                return ('sym', repr(e.value))
+            if e.value is None:
+                return ('sym', 'None')
             raise Undecided(f"constant {e.value!r}")
         if isinstance(e, ast.Name):
             if e.id in env:
@@ -191,6 +197,8 @@ class ExprBuilder:
                 r = self.resolve_attr(d, env)
                 if r is not None:
                     return r
+            if isinstance(e.value, (ast.Call, ast.Subscript)) or (isinstance(e.value, ast.Name) and e.value.id in env):
+                return ('call', 'attr:' + e.attr, (self.build(e.value, env),))
             raise Undecided(f"attribute {ast.unparse(e)}")
         if isinstance(e, ast.UnaryOp):
             a = self.build(e.operand, env)
@@ -244,6 +252,11 @@ class ExprBuilder:
                 return base
             if isinstance(base, tuple) and base[0] == 'tuple' and isinstance(sl, ast.Constant) and isinstance(sl.value, int):
                 return base[1][sl.value]
+            # constant index / slice of a computed value: an uninterpreted projection
+            if isinstance(sl, ast.Constant) or (isinstance(sl, ast.Tuple) and all(isinstance(x, ast.Constant) for x in sl.elts)):
+                return ('call', 'getitem[' + ast.unparse(sl).replace(" ", "") + ']', (base,))
+            if isinstance(sl, ast.Name) and sl.id in env:
+                return ('call', 'getitem', (base, env[sl.id]))
             raise Undecided(f"subscript {ast.unparse(e)}")
         if isinstance(e, (ast.Tuple, ast.List)):
             return ('tuple', tuple(self.build(x, env) for x in e.elts))
@@ -783,3 +796,74 @@ def to_mono(e):
     m = Mono()
     m.mul_atom(('val', to_chain(e)), Ratio.const(1))
     return canon_mono(m)
+
+
+# --------------------------------------------------------------------------- canonical ratios with interned atoms
+class Canon:
+    """Expr -> Ratio in which every uninterpreted application (reducers, library calls, transcendental functions)
+    is an atom; two applications are the same atom iff they have the same head and Ratio-equal arguments."""
+
+    def __init__(self):
+        self.atoms = []      # (head, args tuple of Ratio|str, symbol)
+
+    def atom(self, head, args):
+        for h, a, sym in self.atoms:
+            if h == head and len(a) == len(args) and all(self._eq(x, y) for x, y in zip(a, args)):
+                return sym
+        sym = f"⟨{head}#{len(self.atoms)}⟩"
+        self.atoms.append((head, tuple(args), sym))
+        return sym
+
+    @staticmethod
+    def _eq(x, y):
+        if isinstance(x, Ratio) and isinstance(y, Ratio):
+            return x == y
+        return x == y
+
+    def ratio(self, e):
+        k = e[0]
+        if k == 'num':
+            return Ratio.const(e[1])
+        if k == 'sym':
+            return Ratio.sym(e[1])
+        if k == 'x':
+            return Ratio.sym('x')
+        if k == 'nan':
+            return Ratio.sym('nan')
+        if k == 'neg':
+            return -self.ratio(e[1])
+        if k in ('add', 'sub', 'mul', 'div'):
+            a, b = self.ratio(e[1]), self.ratio(e[2])
+            if k == 'add':
+                return a + b
+            if k == 'sub':
+                return a - b
+            if k == 'mul':
+                return a * b
+            if b.is_zero():
+                raise Undecided("division by the zero ratio")
+            return a / b
+        if k == 'pow':
+            b = self.ratio(e[2])
+            a = self.ratio(e[1])
+            if b.is_const() and b.cval().denominator == 1 and abs(b.cval()) <= 8:
+                n = int(b.cval())
+                r = Ratio.const(1)
+                for _ in range(abs(n)):
+                    r = r * a
+                return r if n >= 0 else r.inv()
+            if b.is_const() and b.cval() == Fraction(1, 2):
+                return Ratio.sym(self.atom('sqrt', [a]))
+            return Ratio.sym(self.atom('pow', [a, b]))
+        if k == 'call':
+            args = [self.ratio(a) for a in e[2]]
+            extra = [str(x) for x in e[3:]]
+            return Ratio.sym(self.atom(e[1], args + extra))
+        if k == 'tuple':
+            return Ratio.sym(self.atom('tuple', [self.ratio(a) for a in e[1]]))
+        if k in ('cmp', 'and', 'or', 'not', 'where'):
+            parts = []
+            for c in e[1:]:
+                parts.append(self.ratio(c) if isinstance(c, tuple) else c)
+            return Ratio.sym(self.atom(k, parts))
+        raise Undecided(f"expression {k}")
